@@ -231,6 +231,21 @@ class Gen(object):
         return t == 0
 
     # ------------------------------------------------------------------ vnacal
+    @staticmethod
+    def chain_vector(kinds, p):
+        """number of frequencies of the vector parameter at the end of the chain of `other` references
+        starting at parameter p (unknown / correlated -> ... -> vector), None when it does not end in one"""
+        for _ in range(16):
+            k = kinds.get(p)
+            if k is None:
+                return None
+            if k[0] == "v":
+                return k[1]
+            if k[0] not in ("u", "c"):
+                return None
+            p = k[1]
+        return None
+
     def cal_op(self):
         r = self.rng
         c = r.randrange(NC)
@@ -244,6 +259,7 @@ class Gen(object):
                 self.C[c] = dict(params=[0, 1, 2], cals=[])
             return
         params = st["params"]
+        kinds = st.setdefault("kinds", {})    # approximate: index -> ("s",) | ("v", n) | ("u", other) | ("c", other)
         nxt = max(params) + 1 if params else 3
 
         def par():
@@ -260,17 +276,31 @@ class Gen(object):
         elif x < 0.15:
             self.emit("cscalar", c, r.choice(["0.5", "-0.3", "0", "1"]), r.choice(["0", "0.2"]))
             params.append(nxt)
+            kinds[nxt] = ("s",)
         elif x < 0.25:
             n = r.choice([1, 2, 3, 5]) if not self.bad() else r.choice([0, -1])
-            self.emit("cvector", c, n, r.choice([0, 0, 0, 1, 2, 3, 4]) if self.bad() else 0)
+            variant = r.choice([0, 0, 0, 1, 2, 3, 4]) if self.bad() else 0
+            self.emit("cvector", c, n, variant)
             params.append(nxt)
+            if n >= 1 and variant in (0, 1, 2):     # (the harness passes valid vectors for the former NULL variants 1, 2)
+                kinds[nxt] = ("v", n)
         elif x < 0.33:
-            self.emit("cunknown", c, par())
+            o = par()
+            self.emit("cunknown", c, o)
             params.append(nxt)
+            kinds[nxt] = ("u", o)
         elif x < 0.41:
             n = r.choice([1, 2, 3, 4]) if not self.bad() else r.choice([0, -1])
-            self.emit("ccorr", c, par(), n, r.choice([1, 2, 3]) if self.bad() else 0)
+            o = par()
+            variant = r.choice([1, 2, 3]) if self.bad() else 0
+            vn = self.chain_vector(kinds, o)
+            if variant == 0 and n >= 1 and vn is not None and r.random() < 0.6:
+                # sigma_frequency_vector NULL: the frequencies are borrowed from the vector parameter at
+                # the end of the chain of `other` references (valid only with its number of frequencies)
+                n, variant = vn, 1
+            self.emit("ccorr", c, o, n, variant)
             params.append(nxt)
+            kinds[nxt] = ("c", o)
         elif x < 0.47:
             self.emit("cpval", c, par(), r.choice(["1e9", "2.5e9", "1e5", "-1", "1e15"]))
         elif x < 0.57:
@@ -278,6 +308,7 @@ class Gen(object):
             self.emit("cpdel", c, p)
             if p in params and p >= 3:
                 params.remove(p)
+                kinds.pop(p, None)
         elif x < 0.62:
             ci = rnd_index(r, len(st["cals"]), 0.3)
             self.emit(r.choice(["cgets", "cgets", "cdelcal", "cend"]), c, ci)
@@ -431,6 +462,8 @@ class Gen(object):
             self.emit("nmm", n, mr, mc, ab(), 0, sr, sc, havemap, *toks)
         else:
             self.emit("nsolve", n)
+            if st["solved"] and r.random() < 0.3:
+                self.emit("nsolve", n)          # solve again at once (same frequencies, same unknowns)
             st["solved"] = True
 
     # ------------------------------------------------------------------ composite valid scenario
@@ -457,11 +490,124 @@ class Gen(object):
             if name not in self.C[c]["cals"]:
                 self.C[c]["cals"].append(name)
 
+    def fresh_cal(self):
+        """a vnacal slot holding a newly created vnacal_t, so that the indices of the parameters made
+        next are known exactly (3, 4, ...); an occupied slot is freed first when none is empty"""
+        r = self.rng
+        empty = [i for i in range(NC) if self.C[i] is None]
+        c = r.choice(empty) if empty else r.randrange(NC)
+        if self.C[c] is not None:
+            self.emit("cfree", c)
+            for i in range(NN):
+                if self.N[i] is not None and self.N[i]["c"] == c:
+                    self.N[i] = None
+        self.emit("ccreate", c, 1)
+        self.C[c] = dict(params=[0, 1, 2], cals=[], kinds={})
+        return c
+
+    def add_param(self, c, kind):
+        st = self.C[c]
+        idx = max(st["params"]) + 1
+        st["params"].append(idx)
+        st["kinds"][idx] = kind
+        return idx
+
+    def param_chain_scenario(self):
+        """vector parameter <- unknown [<- correlated]* <- correlated, every correlated parameter made with
+        sigma_frequency_vector NULL and as many sigmas as the vector has frequencies (the frequencies
+        are borrowed from the vector at the end of the chain); then deletes / evaluations / a second
+        correlated parameter in a random order.  Returns (c, vector, unknown, last correlated)."""
+        r = self.rng
+        c = self.fresh_cal()
+        nf = r.choice([2, 3, 4])
+        self.emit("cvector", c, nf, 0)
+        v = self.add_param(c, ("v", nf))
+        self.emit("cunknown", c, v)
+        u = self.add_param(c, ("u", v))
+        top = u
+        for _ in range(r.choice([1, 1, 2])):
+            self.emit("ccorr", c, top, nf, 1)
+            top = self.add_param(c, ("c", top))
+        tail = [("cpdel", top), ("cpval", v), ("ccorr", u), ("cpdel", u), ("cpval", v)]
+        r.shuffle(tail)
+        for k, p in tail[:r.choice([2, 3, 4])]:
+            if k == "cpdel":
+                self.emit("cpdel", c, p)
+                if p in self.C[c]["params"]:
+                    self.C[c]["params"].remove(p)
+            elif k == "cpval":
+                self.emit("cpval", c, p, r.choice(["6e8", "1e9", "7.5e8"]))
+            else:
+                self.emit("ccorr", c, p, nf, 1)
+                self.add_param(c, ("c", p))     # approximately (a freed slot may be reused)
+        return c, v, u, top
+
+    def unknown_solve_scenario(self):
+        """a one-port calibration (short, open, match and one unknown reflect standard) solved more than
+        once with the same frequencies; optionally the same unknown parameter is also a standard of a
+        second vnacal_new_t with the same number of frequencies and both are solved"""
+        r = self.rng
+        c = self.fresh_cal()
+        nf = r.choice([1, 2, 3])
+        if r.random() < 0.5:
+            self.emit("cscalar", c, "0.45", "0.25")
+            g = ("0.5", "0.3")
+            self.add_param(c, ("s",))
+            unk = [self.add_param(c, ("u", 3))]
+            self.emit("cunknown", c, 3)
+        else:
+            # initial guess = vector parameter; unknown and correlated (borrowed frequencies) standards
+            nf = max(nf, 2)
+            self.emit("cvector", c, nf, 0)
+            g = ("0.1", "-0.2")
+            self.add_param(c, ("v", nf))
+            self.emit("cunknown", c, 3)
+            unk = [self.add_param(c, ("u", 3))]
+            if r.random() < 0.5:
+                self.emit("ccorr", c, 4, nf, 1)
+                unk.append(self.add_param(c, ("c", 4)))
+        ns = [r.randrange(NN)]
+        if r.random() < 0.5:
+            ns.append((ns[0] + 1 + r.randrange(NN - 1)) % NN)
+        for n in ns:
+            if self.N[n] is not None:
+                self.emit("nfree", n)
+            t = r.choice([T8, U8, TE10, UE10, UE14, E12])
+            self.emit("nalloc", n, c, t, 1, 1, nf)
+            self.N[n] = dict(c=c, type=t, rows=1, cols=1, freqs=nf, fv=True, solved=True)
+            self.emit("nsetfv", n, 0)
+            for s11, gs in ((2, "-1"), (1, "1"), (0, "0")):
+                self.emit("nsr", n, 1, 1, 0, 0, s11, 1, gs, "0")
+            for p in unk:
+                self.emit("nsr", n, 1, 1, 0, 0, p, 1, g[0], g[1])
+        for n in ns:
+            self.emit("nsolve", n)
+        for _ in range(r.choice([1, 1, 2])):
+            k = r.randrange(4)
+            if k == 0:
+                self.emit("nptol", ns[0], "1e-9", "0")
+            elif k == 1:
+                self.emit("cpval", c, unk[-1], "1e9")
+            elif k == 2:
+                self.emit("caddcal", c, "cal0", ns[-1])
+                if "cal0" not in self.C[c]["cals"]:
+                    self.C[c]["cals"].append("cal0")
+            self.emit("nsolve", r.choice(ns))
+
     def random_script(self, nops):
         r = self.rng
         fns = {"p": self.prop_op, "d": self.data_op, "c": self.cal_op, "n": self.new_op}
         if "n" in self.modules and r.random() < 0.5:
             self.calibration_scenario(r.randrange(NN), r.randrange(NC), r.choice([T8, U8, TE10, UE10, E12, UE14]), r.choice([1, 2, 2]), r.choice([1, 2, 3]))
+        if "c" in self.modules:
+            # profiles: parameter chains with borrowed sigma frequencies; calibrations with unknown
+            # parameters solved repeatedly / shared by two vnacal_new_t (the rest of the history then
+            # keeps operating on these objects)
+            x = r.random()
+            if x < 0.2:
+                self.param_chain_scenario()
+            elif x < 0.4 and "n" in self.modules:
+                self.unknown_solve_scenario()
         while len(self.ops) < nops:
             m = r.choice(self.modules)
             fns[m]()
